@@ -373,11 +373,11 @@ PROPS = {
     "C01": {"modules": ["MiniVecProof.Props.C01"],
             "cases": lambda tier, seed: general(tier, seed, "C01") + [("release", boundary_grid("release"))],
             "owned_oracles": ["O vec-mismatch", "macro-evals", "X signal"], "owned_diffs": ["result", "contents", "panic", "crash"],
-            "partial_missing": ["refinement to Vec semantics proved for every history over push, pop, insert, remove, swap_remove, truncate, clear, reserve, reserve_exact, shrink_to, shrink_to_fit (C01_refines_vec_partial); every other operation of the property (resize, extend family, append, split_off, dedup, retain, iterators, clone, conversions, macro) is tied to Vec and to the model by the three-way correspondence only"]},
+            "partial_missing": ["refinement to Vec semantics proved for every history over push, pop, insert, remove, swap_remove, truncate, clear, retain (any predicate), reserve, reserve_exact, shrink_to, shrink_to_fit (C01_refines_vec_partial); every other operation of the property (resize, extend family, append, split_off, dedup, Splice/DrainFilter iterators, clone, conversions, macro) is tied to Vec and to the model by the three-way correspondence only"]},
     "C02": {"modules": ["MiniVecProof.Props.C02", "MiniVecProof.Props.C10", "MiniVecProof.Props.C10IntoIter"],
             "cases": lambda tier, seed: [(m, c + raw_natural_cases(m)) for m, c in general(tier, seed, "C02")],
             "owned_oracles": ["O ledger", "X signal"], "owned_diffs": ["own", "crash"],
-            "partial_missing": ["exactly-once destruction and conservation proved for every completed history over the 11 operations of POp followed by Drop (C02_exactly_once_partial, C02_no_double_drop, C02_no_leak); for Drain and IntoIter dropped after any interleaving of steps: yielded front ++ destroyed ++ yielded back reversed = the selected range (specSteps_partition + C10_drain_partial / C10_into_iter_partial); Splice, DrainFilter and the remaining operations by correspondence + per-element ledger"]},
+            "partial_missing": ["exactly-once destruction and conservation proved for every completed history over the 12 operations of POp (incl. retain with any predicate) followed by Drop (C02_exactly_once_partial, C02_no_double_drop, C02_no_leak); for Drain and IntoIter dropped after any interleaving of steps: yielded front ++ destroyed ++ yielded back reversed = the selected range (specSteps_partition + C10_drain_partial / C10_into_iter_partial); Splice, DrainFilter and the remaining operations by correspondence + per-element ledger"]},
     "C03": {"modules": ["MiniVecProof.Props.C01", "MiniVecProof.Proofs.MemDrop", "MiniVecProof.Props.C09"],
             "cases": lambda tier, seed: [(m, c + huge_cases(m) + raw_natural_cases(m)) for m, c in general(tier, seed, "C03", modes=("debug", "release"))],
             "owned_oracles": ["O alloc", "O cap"], "owned_diffs": ["alloc", "ub", "crash"],
